@@ -355,6 +355,9 @@ def replay(path):
         scn = data["scenario"]
         global WATCH
         WATCH = sorted((once_ids(sites) or {}).values())
+        g = gate_ids(sites)
+        if scn.get("schedule") and g:       # a replayed schedule: the gate functions are looked up again in the current sources
+            scn["gate_getters"], scn["gate_builders"] = g["getters"], g.get("builders", [])
         bad = 0
         for k in range(10):
             rc, out, tj, cj = run_scenario(race_drv, scn, work, "r%d" % k, 16, race=True)
